@@ -17,12 +17,19 @@
     edit distance of the two intervals is <= reported errors <= threshold: the occurrence is genuine
     and within tolerance, for all eight classes, all 16 flag sets, every read.
 
-    NOT proved here (C01 remains partial in this one respect): the converse inequality, i.e. that no
-    cheaper alignment of the reported intervals exists (optimality of the banded DP).  That clause is
-    covered by the correspondence of the model with the implementation plus the textbook-distance
-    oracle only. *)
+    And (Proofs/AlignOpt.v): for every adapter class whose aligner may stop anywhere in the read
+    (all classes except the anchored and the non-internal 3' adapters), with indels enabled, the
+    reported errors are EXACTLY the edit distance of the two reported intervals: achieved by an
+    alignment, and no alignment of the two intervals is cheaper (lower-bound invariant on every DP
+    cell over all admissible start positions; diagonal monotonicity of the edit distance justifies
+    the Ukkonen cut-off).
+
+    NOT proved here (C01 remains partial in this one respect): the lower bound for the two classes
+    that must end at the end of the read (SuffixAdapter with indels, NonInternalBackAdapter: there the
+    DP starts in a later column with over-estimated costs, exact only for alignments within the error
+    budget) and for indels disabled.  Covered by the correspondence plus the textbook-distance oracle. *)
 From Coq Require Import ZArith List Bool.
-From CV Require Import Generated.Flags Model.Align Model.Adapters Proofs.AlignProofs Proofs.AdapterProofs Proofs.AlignDist.
+From CV Require Import Generated.Flags Model.Align Model.Adapters Proofs.AlignProofs Proofs.AdapterProofs Proofs.AlignDist Proofs.AlignOpt.
 Import ListNotations.
 Open Scope Z_scope.
 
@@ -68,6 +75,27 @@ Theorem C01_errors_achieved : forall thr ad read mt,
      (zslice (loc_s2 (ad_cfg ad) (a_wq ad) (ad_query ad read)) (rstart mt) (rstop mt)) (merrors mt).
 Proof. exact match_to_dist. Qed.
 Print Assumptions C01_errors_achieved.
+
+(** the reported errors ARE the edit distance of the reported intervals (achieved, and minimal) *)
+Theorem C01_errors_exact : forall thr ad read mt,
+  uses_comparer ad = false -> a_indels ad = true ->
+  match a_type ad with NonInternalBack | Suffix => False | _ => True end ->
+  0 <= thr (zlen (a_seq ad)) -> (forall L, thr L <= thr (zlen (a_seq ad))) ->
+  match_to thr ad read = Some mt ->
+  let A := zslice (loc_s1 (ad_cfg ad) (a_wq ad) (a_seq ad)) (astart mt) (astop mt) in
+  let B := zslice (loc_s2 (ad_cfg ad) (a_wq ad) (ad_query ad read)) (rstart mt) (rstop mt) in
+  ed (loc_eqc (ad_cfg ad) (a_wq ad)) 1 A B (merrors mt) /\
+  forall c, ed (loc_eqc (ad_cfg ad) (a_wq ad)) 1 A B c -> merrors mt <= c.
+Proof. exact match_to_exact. Qed.
+Print Assumptions C01_errors_exact.
+
+(** ... at the level of Aligner.locate: every flag set that may stop anywhere in the query *)
+Theorem C01_locate_errors_minimal : forall thr cfg wq ref query rs re qs qe sc e c,
+  indel_cost cfg = 1 -> stop_in_query cfg = true -> 0 <= thr (zlen ref) -> (forall L, thr L <= thr (zlen ref)) ->
+  locate thr cfg wq ref query = Some (rs, re, qs, qe, sc, e) ->
+  ed (loc_eqc cfg wq) 1 (zslice (loc_s1 cfg wq ref) rs re) (zslice (loc_s2 cfg wq query) qs qe) c -> e <= c.
+Proof. exact locate_opt. Qed.
+Print Assumptions C01_locate_errors_minimal.
 
 (** the hypothesis on the threshold function holds for every non-negative non-decreasing table *)
 Theorem C01_threshold_tables : forall tab, table_ok tab -> 0 < zlen tab ->
